@@ -770,7 +770,8 @@ func c39ConcurrentFetches(r *mon.Run, w *c39World, rng *rand.Rand, groups int) {
 		s := rng.IntN(2)
 		d := 1 - s
 		proto := uint16(1 + rng.IntN(3))
-		base := time.Unix(4_200_000_000+rng.Int64N(50_000_000)+int64(g)*int64(10*w.dur[s]/time.Second), 0)
+		// validity times stay well inside the 32-bit seconds range the protocol carries
+		base := time.Unix(2_500_000_000+rng.Int64N(1_000_000_000)+int64(g)*int64(10*w.dur[s]/time.Second), 0)
 		k := 2 + rng.IntN(3)
 		metas := make([]drkey.ASHostMeta, k)
 		for j := range metas {
